@@ -1,11 +1,12 @@
-import HickoryVerif.Drv.Proto
+/- C14 (journal recovery) shares the zone/update/journal model and the line protocol of C12. -/
+import HickoryVerif.Drv.C12
 
 namespace HickoryVerif.Drv.C14
 open HickoryVerif HickoryVerif.Drv
 
-abbrev State := Unit
-def init : State := ()
+abbrev State := C12.State
+def init : State := C12.init
 
-def step (s : State) (_toks : List String) : State × String := (s, "bad-op")
+def step (s : State) (toks : List String) : State × String := C12.step s toks
 
 end HickoryVerif.Drv.C14
